@@ -50,3 +50,44 @@ Proof. intros us H0 H1. unfold poll_arg. destruct (us / 1000 <? 2 ^ 31) eqn:E; [
 
 Theorem poll_arg_overflow : forall us, 2 ^ 31 <= us / 1000 -> poll_arg us = -1.
 Proof. intros us H. unfold poll_arg. destruct (us / 1000 <? 2 ^ 31) eqn:E; [lia|reflexivity]. Qed.
+
+(* ---- unfinished messages of a crashed sender at the head of the queue ---- *)
+(* they are invisible: the result is the one the rest of the queue gives *)
+Theorem torn_messages_invisible : forall m torn q d,
+  fst (fst (recv_all m torn q d false)) = fst (fst (recv_first m q d false)) /\ snd (recv_all m torn q d false) = false.
+Proof.
+  intros m torn q d. induction torn as [|n IH]; cbn [recv_all].
+  - split; [reflexivity|apply flag_restored].
+  - pose proof (flag_restored m QMsg None) as F. destruct (recv_first m QMsg None false) as [[o0 cs0] f1]. cbn [snd] in F. subst f1.
+    destruct (recv_all m n q d false) as [[o cs'] f2]. cbn [fst snd] in *. exact IH.
+Qed.
+
+(* in particular a non-blocking receive behind torn messages answers by the table and never blocks ... *)
+Corollary torn_try_recv : forall torn q d,
+  fst (fst (recv_all MNonblocking torn q d false)) = match q with QMsg => OMsg | QIdle => OEmpty | QDead => ODisconnected end.
+Proof. intros torn q d. rewrite (proj1 (torn_messages_invisible _ _ _ _)). apply try_recv_table. Qed.
+
+(* ... and a timed receive behind torn messages says 'empty' only after a poll with its FULL timeout found nothing: the last call
+   of the whole receive is that poll *)
+Theorem torn_timeout_full_wait : forall us torn q d o cs f',
+  recv_all (MTimeout us) torn q d false = (o, cs, f') -> o = OEmpty ->
+  exists pre, cs = pre ++ [CPoll (poll_arg us) false] /\ q = QIdle /\ (d = None \/ d = Some QIdle).
+Proof.
+  intros us torn. induction torn as [|n IH]; intros q d o cs f' H Ho; cbn [recv_all] in H.
+  - destruct (timeout_empty_only_after_full_wait _ _ _ _ _ _ _ H Ho) as (-> & Hq & Hd). exists []. auto.
+  - pose proof (flag_restored (MTimeout us) QMsg None) as F.
+    destruct (recv_first (MTimeout us) QMsg None false) as [[o0 cs0] f1]. cbn [snd] in F. subst f1.
+    destruct (recv_all (MTimeout us) n q d false) as [[o1 cs1] f2] eqn:E. injection H as <- <- <-.
+    destruct (IH _ _ _ _ _ E Ho) as (pre & -> & Hq & Hd). exists (cs0 ++ pre). rewrite app_assoc. auto.
+Qed.
+
+(* every discarded message costs exactly one attempt in the caller's mode: the calls are `torn` repetitions of the attempt that
+   finds a packet, followed by the attempt on the rest *)
+Theorem torn_calls : forall m torn q d,
+  snd (fst (recv_all m torn q d false)) =
+  concat (repeat (snd (fst (recv_first m QMsg None false))) torn) ++ snd (fst (recv_first m q d false)).
+Proof.
+  intros m torn q d. induction torn as [|n IH]; cbn [recv_all repeat concat app]; [reflexivity|].
+  pose proof (flag_restored m QMsg None) as F. destruct (recv_first m QMsg None false) as [[o0 cs0] f1] eqn:E0. cbn [snd] in F. subst f1.
+  destruct (recv_all m n q d false) as [[o cs'] f2]. cbn [fst snd] in *. rewrite IH, <- app_assoc. reflexivity.
+Qed.
